@@ -1,4 +1,4 @@
 SPECIFICATION BSpec
-CONSTANTS MaxChrom = 3  MaxUnits = 1  Kinds = {"snp", "inv"}  EndKinds = {"tip"}  Defects = {}  MaxDefects = 0  MinUnits = 0  Pattern <- NoPattern
+CONSTANTS MaxChrom = 3  MaxUnits = 1  Kinds = {"snp", "inv"}  EndKinds = {"tip"}  Defects = {}  MaxDefects = 0  MinUnits = 0  Pattern <- NoPattern  Wholes = {}
 INVARIANT LexSanity
 CHECK_DEADLOCK FALSE
